@@ -29,6 +29,7 @@ def cased_text(body, case_list, recorder):
 def population(m):
     """attribute multisets of every Body / Value / Event subsystem instance, without ids, positions and source text"""
     out = {}
+    dtname = dict((d.DT_ID, d.Name) for d in m.select_many('S_DT'))
     for K, mc in m.metaclasses.items():
         if not (K.startswith('ACT_') or K.startswith('V_') or K.startswith('E_')):
             continue
@@ -39,6 +40,10 @@ def population(m):
         for i in insts:
             row = []
             for n, t in mc.attributes:
+                if n.endswith('DT_ID'):
+                    # the data type an instance is linked to (R820 of a value, R848 of a variable ...), by name
+                    row.append((n, dtname.get(getattr(i, n))))
+                    continue
                 if t.upper() == 'UNIQUE_ID' or n in SKIP_ATTRS or 'LineNumber' in n or 'Column' in n:
                     continue
                 if n in mc.referential_attributes:
@@ -53,26 +58,37 @@ def run_case(case, res=None):
     from .c08_case import SEMANTIC
     try:
         fx = prebuildfix.Fixture(case['tape'])
+    except Exception as e:
+        raise Violation('fixture-exception:' + exc_bucket(e), case, repr(e))
+    try:
+        fx.prebuild()
+    except Exception as e:
+        raise Violation('lower-case-prebuild-exception:' + exc_bucket(e), dict(case, prebuild=True), repr(e))
+    p1 = population(fx.m)
+    # the drawn spelling of every keyword occurrence, and every keyword in upper case at once
+    for variant in (case['case'], [1]):
+        compare_variant(case, fx, p1, variant, res)
+
+
+def compare_variant(case, fx, p1, variant, res):
+    from .c08_case import SEMANTIC
+    try:
         rec = []
         texts = {}
         for c in fx.callables:
-            texts[c.kind + ':' + c.name] = cased_text(c.body, case['case'], rec)
+            texts[c.kind + ':' + c.name] = cased_text(c.body, variant, rec)
         fx2 = prebuildfix.Fixture(case['tape'], texts=texts)
     except Exception as e:
         raise Violation('fixture-exception:' + exc_bucket(e), case, repr(e))
-    info = dict(case, prebuild=True, bodies=texts)
+    info = dict(case, prebuild=True, bodies=texts, variant=variant)
 
     def fail(bucket, detail):
         raise Violation(bucket, info, detail)
     try:
-        fx.prebuild()
-    except Exception as e:
-        fail('lower-case-prebuild-exception:' + exc_bucket(e), repr(e))
-    try:
         fx2.prebuild()
     except Exception as e:
         fail('recased-prebuild-exception:' + exc_bucket(e), repr(e))
-    p1, p2 = population(fx.m), population(fx2.m)
+    p2 = population(fx2.m)
     if sorted(p1) != sorted(p2):
         fail('recased-prebuild-other-classes', 'only lower %r, only recased %r' % (sorted(set(p1) - set(p2)), sorted(set(p2) - set(p1))))
     for K in p1:
@@ -86,7 +102,7 @@ def run_case(case, res=None):
             fail('recased-prebuild-structure', 'generated text differs for %s:\n%s\n---\n%s' % (c.name, t1, t2))
     if res is not None:
         sd = sorted(set(w for w, o in rec if o != w and w in SEMANTIC))
-        res.case(['prebuild', case['tape'], case['case']], bool(sd), classes=['prebuild'] + ['kw:' + w for w in sd],
+        res.case(['prebuild', case['tape'], variant], bool(sd), classes=['prebuild'] + ['kw:' + w for w in sd],
                  sample={'recased': list(texts.values())[0][:500]} if sd else None)
 
 
@@ -99,7 +115,7 @@ def run_part(ctx, res):
         except Exception as e:
             raise Violation('harness-exception:' + exc_bucket(e), case, repr(e))
     strat = st.fixed_dictionaries({'tape': oalsyn.tapes(900, 120), 'case': st.lists(st.integers(0, 3), min_size=1, max_size=25)})
-    hyp_run(ctx, res, strat, body, ctx.pick(40, 400), label='prebuild')
+    hyp_run(ctx, res, strat, body, ctx.pick(50, 400), label='prebuild')
 
 
 def replay(case):
